@@ -9,8 +9,8 @@ LP = [[a, b] for a in range(3) for b in range(3) if a != b]
 def run(tier):
     obs = [
         Obligation('purge', 'harness/c15.py', 'h_purge', partitions=LP, timeout=500,
-                   what='PurgeAppTask.prepare: the emitted statements are exactly DROP TABLE of the named app\'s model tables and auto-created M2M tables; the app\'s entries leave the signature; the other app serialises as before',
-                   bounds='2 apps with labels from {t, ta, tab}; model table default or custom (4 names colliding with defaults of others), M2M table default or custom, cross-app FK or not, holder defined before/after its target, either app purged',
+                   what='PurgeAppTask.prepare: the emitted statements are exactly DROP TABLE of the named app\'s model tables and auto-created M2M tables; the app\'s entries leave the signature; the other app serialises as before; when the app a relation points into was already purged from the signature, the purge is refused (MissingSignatureError) or still exact, never partial',
+                   bounds='2 apps with labels from {t, ta, tab}; model table default or custom (5 names: colliding with defaults of others, and one a prefix of another), M2M table default or custom from the same names, cross-app FK or not, holder defined before/after its target, either app purged, other app present or already purged',
                    functions=F),
         Obligation('delete_model', 'harness/c15.py', 'h_delete_model', partitions=LP, timeout=500,
                    what='DeleteModel through AppMutator: DROP TABLE of the model table and its M2M tables only; every other model signature unchanged',
